@@ -5,9 +5,9 @@ import base64
 import hashlib
 
 CSTAT = ['LAUNCHED', 'BUILT', 'GUARD_WAIT', 'EXTENDED', 'FAILED', 'CLOSED']
-SSTAT = ['NEW', 'REMAP', 'SENTCONNECT', 'SUCCEEDED', 'DETACHED', 'FAILED', 'CLOSED']
+SSTAT = ['NEW', 'REMAP', 'SENTCONNECT', 'SUCCEEDED', 'DETACHED', 'FAILED', 'CLOSED', 'NEWRESOLVE', 'SENTRESOLVE']
 C_LAUNCHED, C_BUILT, C_GUARD_WAIT, C_EXTENDED, C_FAILED, C_CLOSED = range(6)
-S_NEW, S_REMAP, S_SENTCONNECT, S_SUCCEEDED, S_DETACHED, S_FAILED, S_CLOSED = range(7)
+S_NEW, S_REMAP, S_SENTCONNECT, S_SUCCEEDED, S_DETACHED, S_FAILED, S_CLOSED, S_NEWRESOLVE, S_SENTRESOLVE = range(9)
 
 NRELAY = 12
 
@@ -52,6 +52,50 @@ VALS = {
 VAL_REV = {k: {v: i for i, v in enumerate(vs)} for k, vs in VALS.items()}
 UNKNOWN = 65000        # a string that is in none of the tables
 BAD = 2 ** 32 - 1       # a number that is not a number (None, negative, not an object of the run)
+
+
+def listener_raises(n, m):
+    """listener 8 * (m + 1) + i (i < 8) raises from its method number m, after it has noted the call"""
+    return 8 <= n < 64 and n // 8 - 1 == m
+
+
+def listener_queries(n):
+    """listener >= 64 looks its object up in TorState from inside every callback"""
+    return n >= 64
+
+
+class ListenerBug(RuntimeError):
+    pass
+
+
+def raising_listeners(n):
+    """(ICircuitListener, IStreamListener) doubles that do nothing but raise from method n // 8 - 1 (C07: the live
+    state does not depend on what listeners do)"""
+    from zope.interface import implementer
+    from txtorcon.interface import ICircuitListener, IStreamListener
+
+    def hit(m):
+        if listener_raises(n, m):
+            raise ListenerBug('listener %d in method %d' % (n, m))
+
+    @implementer(ICircuitListener)
+    class CL(object):
+        def circuit_new(self, circuit): hit(0)
+        def circuit_launched(self, circuit): hit(1)
+        def circuit_extend(self, circuit, router): hit(2)
+        def circuit_built(self, circuit): hit(3)
+        def circuit_closed(self, circuit, **kw): hit(4)
+        def circuit_failed(self, circuit, **kw): hit(5)
+
+    @implementer(IStreamListener)
+    class SL(object):
+        def stream_new(self, stream): hit(0)
+        def stream_succeeded(self, stream): hit(1)
+        def stream_attach(self, stream, circuit): hit(2)
+        def stream_detach(self, stream, **kw): hit(3)
+        def stream_closed(self, stream, **kw): hit(4)
+        def stream_failed(self, stream, **kw): hit(5)
+    return CL(), SL()
 
 
 def kw_text(k, v):
